@@ -2307,3 +2307,78 @@ Proof.
     destruct (s_out sb) as [[]|] eqn:Ho; try discriminate; inversion Hf; subst sb';
       (eapply YAll_sub_step; eauto; cbn; discriminate).
 Qed.
+
+Lemma YAll_init nw subs : YAll (init nw subs).
+Proof.
+  intros i sb Hi _. cbn in Hi. rewrite nth_error_map in Hi.
+  destruct (nth_error subs i) as [[qs uo]|]; [|discriminate]. inversion Hi; subst sb. cbn.
+  constructor; cbn.
+  - intros H. exfalso. apply H. reflexivity.
+  - unfold iq, infl_list. cbn. destruct uo; cbn; intros l H; [destruct H as [?|[]]; discriminate|contradiction].
+  - intros ->. split; auto. exists []. split; auto.
+  - intros ->. split; [intros []|]. intros l [].
+Qed.
+
+Lemma reachable_YAll h nw subs st : strict h -> reachable h nw subs st -> YAll st.
+Proof.
+  intros Hs [sch Hr]. revert Hr. generalize (Inv_init h nw subs) (YAll_init nw subs). generalize (init nw subs).
+  induction sch as [|lb sch IH]; intros s0 I Y Hr; cbn in Hr.
+  - inversion Hr; subst. exact Y.
+  - destruct (step h s0 lb) as [s1|] eqn:E; [|discriminate]. apply (IH s1); auto.
+    + eapply step_Inv; eauto.
+    + eapply step_YAll; eauto. apply I.
+Qed.
+
+(** Exactly one sync marker, and every leaf that was attached and selected
+    when one of the subscriber's walks started is sent (or queued) before it. *)
+Theorem snapshot_before_single_sync h nw subs st :
+  strict h -> reachable h nw subs st ->
+  forall i sb, nth_error (st_subs st) i = Some sb -> s_end sb = false ->
+    s_uo sb = false -> walk_done sb = true ->
+    exists pre post, trace st sb = pre ++ TSync :: post /\ ~ In TSync pre /\ ~ In TSync post /\
+      forall l, In l (s_snap sb) -> exists p, leaf_path st l = Some p /\ In (TUpd p) pre.
+Proof.
+  intros Hs Hr i sb Hi He Hu Hw. assert (Y := reachable_YAll _ _ _ _ Hs Hr _ _ Hi He).
+  assert (Y3 := y_snap _ _ Y Hu). unfold walk_done in Hw. destruct (s_pc sb); try discriminate. exact Y3.
+Qed.
+
+(** before the walk is over no sync marker is anywhere in the stream *)
+Theorem no_sync_before_walk_done h nw subs st :
+  strict h -> reachable h nw subs st ->
+  forall i sb, nth_error (st_subs st) i = Some sb -> s_end sb = false ->
+    s_uo sb = false -> walk_done sb = false -> ~ In TSync (trace st sb).
+Proof.
+  intros Hs Hr i sb Hi He Hu Hw. assert (Y := reachable_YAll _ _ _ _ Hs Hr _ _ Hi He).
+  assert (Y3 := y_snap _ _ Y Hu). unfold walk_done in Hw. destruct (s_pc sb); try discriminate; tauto.
+Qed.
+
+(** updates_only: the sync marker is the first thing in the stream, and the only one *)
+Theorem updates_only_sync_first h nw subs st :
+  strict h -> reachable h nw subs st ->
+  forall i sb, nth_error (st_subs st) i = Some sb -> s_end sb = false -> s_uo sb = true ->
+    exists post, trace st sb = TSync :: post /\ ~ In TSync post.
+Proof.
+  intros Hs Hr i sb Hi He Hu. assert (Y := reachable_YAll _ _ _ _ Hs Hr _ _ Hi He).
+  apply (y_uo _ _ Y Hu).
+Qed.
+
+(** at quiescence the trace is the stream on the wire *)
+Lemma trace_quiescent st sb :
+  s_queue sb = [] -> s_infl sb = None -> s_out sb = None -> trace st sb = map tag_resp (s_sent sb).
+Proof.
+  intros Hq Hi Ho. unfold trace, so, out_list, iq, infl_list. rewrite Hq, Hi, Ho. cbn. rewrite !app_nil_r. reflexivity.
+Qed.
+
+(** every leaf attached and selected at the start of a walk is in the snapshot set *)
+Lemma walk_begin_snapshot h st s st' :
+  step h st (LWalkBegin s) = Some st' ->
+  forall sb sb' k q, nth_error (st_subs st) s = Some sb -> nth_error (st_subs st') s = Some sb' ->
+    s_pc sb = SGap k -> nth_error (s_qs sb) k = Some q ->
+    forall p l, tlookup p (st_tree st) = Some l -> covers q p = true -> In l (s_snap sb').
+Proof.
+  cbn. intros Hstep sb sb' k q Hsb Hsb' Hpc Hq p l Hl Hc.
+  apply with_sub_inv in Hstep as (sb0 & sb1 & Hsb0 & Hf & ->). rewrite Hsb in Hsb0. inversion Hsb0; subst sb0.
+  rewrite Hpc, Hq in Hf. inversion Hf; subst sb1. cbn in Hsb'. rewrite nth_error_upd_nth_eq, Hsb in Hsb'.
+  inversion Hsb'; subst sb'. cbn. apply in_app_iff. right. apply in_map_iff. exists (p, l). split; auto.
+  apply filter_In. split; [apply tlookup_In; auto|exact Hc].
+Qed.
